@@ -69,6 +69,22 @@ def _fill(t, nums, logs):
     return t[3](nums, logs)
 
 
+INT_ARG_TEMPLATES = ('alldiff', 'nalldiff')      # comparisons of non-integer expressions are refused by
+                                                 # the MIP converter; see family_alldiff_cont
+NUM_LEAF_INT = [X, B, N(1)]
+
+
+def is_int_expr(e):
+    k = e[0]
+    if k == 'v': return V3[e[1]][2]
+    if k == 'n': return float(e[1]).is_integer()
+    if k in ('count', 'numberof'): return True
+    if k == 'if': return is_int_expr(e[2]) and is_int_expr(e[3])
+    if k in ('neg', 'abs', 'pow2', 'add', 'sub', 'mul', 'min', 'max', 'sum'):
+        return all(is_int_expr(a) for a in e[1:])
+    return False
+
+
 def depth1(all_leaves=False):
     """every template over leaves.  all_leaves: every assignment of leaf alphabet to slots."""
     out_n, out_l = [], []
@@ -78,10 +94,12 @@ def depth1(all_leaves=False):
             if all_leaves:
                 for nums in itertools.product(NUM_LEAF_ALL, repeat=na):
                     if na and all(n[0] == 'n' for n in nums): continue
+                    if name in INT_ARG_TEMPLATES and not all(is_int_expr(n) for n in nums): continue
                     for logs in itertools.product(LOG_ATOM_ALL[:3], repeat=nl):
                         out.append((name, _fill(t, list(nums), list(logs))))
             else:
-                out.append((name, _fill(t, NUM_LEAF_DEFAULT[:na], LOG_ATOM_DEFAULT[:nl])))
+                leaves = NUM_LEAF_INT if name in INT_ARG_TEMPLATES else NUM_LEAF_DEFAULT
+                out.append((name, _fill(t, leaves[:na], LOG_ATOM_DEFAULT[:nl])))
     return out_n, out_l
 
 
@@ -94,7 +112,9 @@ def depth2(reduced=True):
             name, na, nl, _ = t
             for i in range(na):
                 for cname, child in d1n:
-                    nums = list(NUM_LEAF_DEFAULT[:na]); nums[i] = child
+                    leaves = NUM_LEAF_INT if name in INT_ARG_TEMPLATES else NUM_LEAF_DEFAULT
+                    if name in INT_ARG_TEMPLATES and not is_int_expr(child): continue
+                    nums = list(leaves[:na]); nums[i] = child
                     out.append(('%s[%d<-%s]' % (name, i, cname), _fill(t, nums, LOG_ATOM_DEFAULT[:nl])))
             for i in range(nl):
                 for cname, child in d1l:
@@ -260,9 +280,16 @@ def family_linear_mix():
                                                              obj=('max', None, {0: 1.0, 1: 1.0, 2: -1.0})))
 
 
+def family_alldiff_cont():
+    """alldiff over non-integer expressions (the default MIP conversion refuses these)"""
+    for nm, e in [('y,x,b', ('alldiff', Y, X, B)), ('max(x,y),y,b', ('alldiff', ('max', X, Y), Y, B)),
+                  ('x+y,y,b', ('alldiff', ('add', X, Y), Y, B)), ('!alldiff y,x,b', ('nalldiff', Y, X, B))]:
+        yield ('alldiff-cont ' + nm, Model(V3, lcons=[e]))
+
+
 FAMILIES = {
     'shapes': family_shapes, 'sharing': family_sharing, 'canon': family_canon, 'uenc': family_uenc,
-    'bounds': family_bounds, 'linmix': family_linear_mix,
+    'bounds': family_bounds, 'linmix': family_linear_mix, 'alldiffcont': family_alldiff_cont,
 }
 
 
